@@ -577,6 +577,9 @@ PROPS["C04"]["level_text"] += (
     "RESTMapper exactly once iff the phase has ended and contains a CRD that was not skipped (by the actuation table the phase started with), "
     "never while it runs and never otherwise — tied to WaitTask.updateRESTMapper by counting Reset() calls in domain wait.")
 
+PROPS["C18"]["domains"].append("sys-C18")
+PROPS["C18"]["rule"] += (" sys-C18: the whole-run histories of the system-level properties (" + _SYS_RULE[:60] + "…): store snapshots now carry the field apply-time "
+    "mutation writes; after every successful apply of an object with a mutation annotation that field must equal the source's value in the same snapshot.")
 for _p in ("C18", "C06"):
     PROPS[_p]["rule"] += (
         " runnercache: the real TaskStatusRunner.Run with one task held open while a scripted watcher feeds 0-6 status events for 1-3 objects "
